@@ -41,3 +41,15 @@ Record bal_leak := BalLeak {
   bl_acq_pos : string;
   bl_exit : string
 }.
+
+(** Round 7: a potentially blocking channel operation (send, receive, select
+    without default, WaitGroup.Wait) reachable from a root with a non-empty
+    must-held lock set (tools/locktable/chanops.go). *)
+Record chan_row := ChanRow {
+  cr_fn : string;
+  cr_op : string;
+  cr_chan : string;
+  cr_held : held;
+  cr_pos : string;
+  cr_root : string
+}.
